@@ -1,18 +1,33 @@
 (* Corr/C17.v -- correspondence interface for C17 (geff_to_dataframes / geff_to_csv / CLI). *)
-From Geff Require Export Base Table.
+From Geff Require Export Base Table Csv.
 Open Scope list_scope.
 
 Inductive input :=
 | IFrames (g : graph)
 (* which of the two output files exist beforehand, the overwrite flag, through the CLI or not *)
-| ICsv (pre_nodes pre_edges overwrite cli : bool) (g : graph).
+| ICsv (pre_nodes pre_edges overwrite cli : bool) (g : graph)
+(* fx2011: the CSV TEXT layer.  A typed graph exported by geff_to_csv into an empty directory: the bytes of
+   both files and what pandas.read_csv(path) with default arguments makes of them.  [den] samples the value
+   function of pandas' default float parser (text -> float64 bits), which the model leaves abstract *)
+| ICsvText (g : tgraph) (den : list (string * Z))
+(* pandas.read_csv with default arguments on an arbitrary text (reader model alone) *)
+| IRead (text : string) (den : list (string * Z))
+(* constants of the running pandas: the default NA tokens *)
+| IConsts.
 
 (* a file afterwards: absent, still the bytes that were there, or a CSV that parses to a table *)
 Inductive fileobs := FAbsent | FOld | FNew (t : table).
 
+(* a DataFrame as read by pandas: per column its name, dtype and cells (floats by their bits) *)
+Inductive ocell := OInt (z : Z) | OFloat (bits : Z) | ONaN | OBool (b : bool) | OStr (s : string).
+Definition oframe := list (string * (rdtype * list ocell)).
+
 Inductive obs :=
 | OFrames (r : res ((table * list string) * (table * list string)))
-| OCsv (r : res unit) (fnodes fedges : fileobs).
+| OCsv (r : res unit) (fnodes fedges : fileobs)
+| OCsvText (r : res unit) (ntext etext : string) (nread eread : option oframe)
+| ORead (f : option oframe)
+| OConsts (na : list string).
 
 Definition table_eqb : table -> table -> bool :=
   list_eqb (prod_eqb String.eqb (list_eqb cell_eqb)).
@@ -28,6 +43,41 @@ Definition file_obs (f : option table) : fileobs :=
   | Some t => if table_eqb t old_table then FOld else FNew t
   end.
 
+(* the model's frame in the vocabulary of the observation: an integer-valued float by its bits, a parsed
+   float through the sampled parser; None when a column is outside the model or a literal was not sampled *)
+Fixpoint assoc_s {A} (l : list (string * A)) (k : string) : option A :=
+  match l with [] => None | (k', v) :: r => if String.eqb k' k then Some v else assoc_s r k end.
+
+Definition to_ocell (den : list (string * Z)) (c : rcell) : option ocell :=
+  match c with
+  | RInt z => Some (OInt z)
+  | RFint z => Some (OFloat (f64_bits_of_int z))
+  | RFlit s => option_map OFloat (assoc_s den s)
+  | RNaN => Some ONaN
+  | RBool b => Some (OBool b)
+  | RStr s => Some (OStr s)
+  end.
+
+Fixpoint all_some {A} (l : list (option A)) : option (list A) :=
+  match l with
+  | [] => Some []
+  | None :: _ => None
+  | Some x :: r => match all_some r with Some xs => Some (x :: xs) | None => None end
+  end.
+
+Definition to_ocol (den : list (string * Z)) (c : string * option (rdtype * list rcell))
+  : option (string * (rdtype * list ocell)) :=
+  match snd c with
+  | None => None
+  | Some (d, cells) => match all_some (map (to_ocell den) cells) with
+                       | Some cs => Some (fst c, (d, cs))
+                       | None => None
+                       end
+  end.
+
+Definition to_oframe (den : list (string * Z)) (f : option rframe) : option oframe :=
+  match f with None => None | Some cols => all_some (map (to_ocol den) cols) end.
+
 Definition model (i : input) : obs :=
   match i with
   | IFrames g => OFrames (Ok (geff_to_dataframes g))
@@ -35,6 +85,11 @@ Definition model (i : input) : obs :=
       let s := mkFs (if pn then Some old_table else None) (if pe then Some old_table else None) in
       let r := if cli then cli_convert_to_csv s g else geff_to_csv s g ov in
       OCsv (snd r) (file_obs (fs_nodes (fst r))) (file_obs (fs_edges (fst r)))
+  | ICsvText g den =>
+      let (nt, et) := csv_texts g in
+      OCsvText (Ok tt) nt et (to_oframe den (read_csv_default nt)) (to_oframe den (read_csv_default et))
+  | IRead text den => ORead (to_oframe den (read_csv_default text))
+  | IConsts => OConsts na_values
   end.
 
 Definition fileobs_eqb (a b : fileobs) : bool :=
@@ -44,10 +99,37 @@ Definition fileobs_eqb (a b : fileobs) : bool :=
   | _, _ => false
   end.
 
+Definition rdtype_eqb (a b : rdtype) : bool :=
+  match a, b with
+  | DInt64, DInt64 | DUInt64, DUInt64 | DFloat64, DFloat64 | DBool, DBool | DStr, DStr | DObject, DObject => true
+  | _, _ => false
+  end.
+Definition ocell_eqb (a b : ocell) : bool :=
+  match a, b with
+  | OInt x, OInt y | OFloat x, OFloat y => Z.eqb x y
+  | ONaN, ONaN => true
+  | OBool x, OBool y => Bool.eqb x y
+  | OStr x, OStr y => String.eqb x y
+  | _, _ => false
+  end.
+Definition oframe_eqb : oframe -> oframe -> bool :=
+  list_eqb (prod_eqb String.eqb (prod_eqb rdtype_eqb (list_eqb ocell_eqb))).
+
 Definition obs_eqb (a b : obs) : bool :=
   match a, b with
   | OFrames x, OFrames y => res_eqb (prod_eqb frame_eqb frame_eqb) x y
   | OCsv r f1 f2, OCsv r' f1' f2' => res_eqb (fun _ _ => true) r r' && fileobs_eqb f1 f1' && fileobs_eqb f2 f2'
+  (* the model must cover every written file: a frame outside the model equals nothing *)
+  | OCsvText r n e fn fe, OCsvText r' n' e' fn' fe' =>
+      res_eqb (fun _ _ => true) r r' && String.eqb n n' && String.eqb e e' &&
+      match fn, fn', fe, fe' with
+      | Some a, Some a', Some b, Some b' => oframe_eqb a a' && oframe_eqb b b'
+      | _, _, _, _ => false
+      end
+  (* arbitrary text: no claim where the model is silent *)
+  | ORead None, ORead _ => true
+  | ORead (Some a), ORead (Some b) => oframe_eqb a b
+  | OConsts a, OConsts b => strlist_eqb a b
   | _, _ => false
   end.
 
